@@ -261,6 +261,12 @@ func (ps *PartSet) AddPart(part *Part) (bool, error) {
 		return false, ErrPartSetUnexpectedIndex
 	}
 
+	// The proof must be the one for this index in a tree of exactly ps.total leaves: a genuine part
+	// offered under another index must not fill (and so block) that slot.
+	if part.Proof.Index != uint64(part.Index) || part.Proof.Total != uint64(ps.total) {
+		return false, ErrPartSetInvalidProof
+	}
+
 	// If part already exists, return false.
 	if ps.parts[part.Index] != nil {
 		return false, nil
